@@ -5,8 +5,9 @@ namespace Driver.C06
 open Own Driver.OwnCommon
 
 /-- Hypothesis excluded by finding launch_pending_leak: no task of the environment is
-    scripted to be still starting (or dead) when its deployment is given up. -/
-def launchesPromptIn (e : EnvIn) : Bool := e.roles.all (fun r => r.kind == .call || r.launch == "ok")
+    scripted to be still starting (or dead) when its deployment is given up. (`nohost` — the offer for the role's host
+    carried no hostname — is a prompt launch: the task comes up; it just cannot be locked.) -/
+def launchesPromptIn (e : EnvIn) : Bool := e.roles.all (fun r => r.kind == .call || r.launch == "ok" || r.launch == "nohost")
 
 /-- Why `cleanAfter k keep v` fails: `some hyp` if every failing clause is explained by an
     excluded hypothesis the input violates, `none` otherwise.
